@@ -88,7 +88,7 @@ func verifC23Error(name string) (error, verifC23Desc) {
 // authenticate maps every authenticator error to the documented status.
 //
 //verif:stub encoding/json.Marshal = verifJSONMarshal
-//verif:bound error = base (AuthFailure with any of the 6 reasons or empty; RpcError whose Type is ANY string of length 3, 10 or 15; AuthUnavailableError with RetryAfter in [-5,100000]; plain error) wrapped in 0..2 Unwrap-able layers and optionally one opaque layer; wwwAuthenticate set or empty; proxy hint on or off
+//verif:bound error = base (AuthFailure with any of the 6 reasons or empty; RpcError whose Type is ANY string of length 3, 10 or 15; AuthUnavailableError with RetryAfter in [-5,100000]; plain error) wrapped in 0..2 Unwrap-able layers and optionally one opaque layer; wwwAuthenticate set or empty; proxy hint on or off; the failing authenticator returns a nil context or a decoded context alongside the error
 func verifH_C23_status() {
 	err, d := verifC23Error("e")
 	h := &HttpServer{server: &Server{}}
@@ -98,7 +98,11 @@ func verifH_C23_status() {
 	if verifNondetBool("proxy") {
 		h.proxyProofRequired = true
 	}
-	h.authenticateFunc = func(r *http.Request) (*AuthContext, error) { return nil, err }
+	var rejectedCtx *AuthContext
+	if verifNondetBool("context_with_error") {
+		rejectedCtx = &AuthContext{Authenticated: true, Principal: "p"}
+	}
+	h.authenticateFunc = func(r *http.Request) (*AuthContext, error) { return rejectedCtx, err }
 	rw := &verifC23RW{hdr: http.Header{}}
 	r := &http.Request{Header: http.Header{}, RemoteAddr: "1.2.3.4:5"}
 	ac := h.authenticate(rw, r)
